@@ -144,7 +144,7 @@ var components = map[string]interface{}{
 // Check runs property id at the given tier.
 func Check(root, id, tier string, seed uint64) (*Result, error) {
 	start := time.Now()
-	e, ins, cleanup, err := Setup(true, tier == "thorough" && id == "C14")
+	e, ins, cleanup, err := Setup(true, id == "C14")
 	if err != nil {
 		return nil, err
 	}
@@ -366,7 +366,7 @@ func Replay(path string) (*Case, []string, error) {
 	}
 	c.Failures, c.Observed = nil, nil
 	needSim := c.Run.Sim != nil || (c.Ref != nil && c.Ref.Sim != nil)
-	e, _, cleanup, err := Setup(needSim, c.Tier == "thorough" && c.Property == "C14")
+	e, _, cleanup, err := Setup(needSim, c.Property == "C14")
 	if err != nil {
 		return nil, nil, err
 	}
